@@ -25,7 +25,10 @@ class NumberType(Type):
             if other is None:
                 return self.value, None
             elif other.dtype is None:
+                # two anonymous numbers: compare them in the other's unit, as numbers
+                self.convert(other.unit)
                 self.value = float(self.value)
+                other.value = float(other.value)
             else:
                 if other.dtype in [int,float]:
                     self.convert(other.unit)
